@@ -7,6 +7,7 @@
 EXTENDS Tetris
 
 CONSTANTS MaxSteps
+NoSteps == -1
 VARIABLES s, last
 vars == <<s, last>>
 
